@@ -495,9 +495,12 @@ class C11(PropBase):
         "start/stop - are translated to Gallina (Gen/C11Sym.v) and proved equal to the model (c11_source_tie); the templates' literal text and the "
         "Gallina skeleton the holes are spliced into are trusted to say the same thing; reuses the C08 range-table model; and (3, round 5 second pass) by translate/c11_compile.py, a small "
         "compiler (tokeniser + recursive-descent parser for a Rust subset + continuation-passing code generator, field types read from the struct declarations) that translates the bodies of "
-        "get_inlinee_at_depth, get_outermost_sourceloc, get_innermost_sourceloc, find_nearest_public and fill_symbol statement by statement into Gallina (Gen/C11Src.v) over the vocabulary "
-        "C11/Prims.v (vec_index, usize_sub, bres_err, opt_and_then, the three FrameSymbolizer callbacks as updates of a sym_out): here the trusted part is the compiler's reading of each construct "
-        "and Prims.v, no longer a hand-written skeleton; c11_compiled_source_tie proves the compiled functions equal to the model and the compiled fill_symbol answers field D of every generated query",
+        "memory_range (Function, StackInfoWin), get_inlinee_at_depth, get_outermost_sourceloc, get_innermost_sourceloc, find_nearest_public, SymbolFile::fill_symbol, the Line::Function arm of finish_item, "
+        "insert_win_stack_info, Symbolizer::fill_symbol and fill_source_line_info statement by statement into Gallina (Gen/C11Src.v) over the vocabulary "
+        "C11/Prims.v (vec_index, usize_sub, range_new, bres_err, opt_and_then, vec_mapM / opt_mapM, vec_last_split with write-back for last_mut(), opt_unwrap, the three FrameSymbolizer callbacks as updates of a sym_out, "
+        "StackFrame / module list / cached symbol file for the async Symbolizer glue, read sequentially): here the trusted part is the compiler's reading of each construct "
+        "and Prims.v, no longer a hand-written skeleton; c11_compiled_source_tie proves the compiled functions equal to the model; the compiled functions build the printed table and answer fields D and S of every generated query; a function outside the "
+        "compiler's subset is reported (broken tie) and replaced by a FALLBACK definition equal to the hand-written model so that the correspondence run goes on",
         "names are modelled as integers, rendered as letter + 4 digits so that String order = integer order (PublicSymbol's derived Ord)",
         "std slice::binary_search_by modelled as the Rust >= 1.82 halving loop; Vec::sort as a stable insertion sort; HashMap as insert log",
         "extraction: ExtrOcamlBasic only; ocaml/zconv.ml + ocaml/c11/main.ml glue (it renders the case as .sym text a second time, independently of the harness, for the "
@@ -539,7 +542,8 @@ class C11(PropBase):
                 "to the hand-written model (c11_source_tie: operators, operands, constants, table order, keys, loop bounds; structure pinned by templates that abort on unrecognised source); second pass: the bodies of get_inlinee_at_depth, "
                 "get_outermost/innermost_sourceloc, find_nearest_public and fill_symbol (callbacks, early returns, `?`, the unbounded `for depth in 1..` loop as a Fixpoint over fuel, u64 +/- as trapping operations, indexing as a panic site) are COMPILED into Gallina "
                 "on every run and proved equal to the model for all arguments, panics included (c11_compiled_source_tie); on every well-formed file the compiled fill_symbol with any fuel covering the table's FUNCs equals symbolize and returns "
-                "(c11_compiled_fill_symbol), so the property theorems hold of the compiled source; the extracted compiled function answers the fill_symbol field of every generated query; likewise the Line::Function arm of finish_item (closures included) is compiled and the table built with it equals build_symtab (c11_compiled_build_symtab); "
+                "(c11_compiled_fill_symbol), so the property theorems hold of the compiled source; the extracted compiled function answers the fill_symbol field of every generated query; likewise the Line::Function arm of finish_item (closures included) and insert_win_stack_info (last_mut borrow, `as u32`, unwrap) are compiled and the table built with them equals build_symtab (c11_compiled_build_symtab); "
+                "Symbolizer::fill_symbol and fill_source_line_info are compiled too and, on module lists with parsed tables, return the frame of c11_module_frame_total (c11_compiled_frame_total); "
                 "the Symbolizer level is composed with C12's cache model for the sequential client of a case: in every finishing schedule one result per lookup in order, each the supplier's single answer for that module, requested = processed = distinct modules, "
                 "each module fetched once (c11_symbolizer_session), and in every schedule the frame filled from the cached answer is frame_of (c11_symbolizer_cached_frame); modules may be unknown to the supplier or have a corrupt file, and pending_stats / stats are compared after every case. Model and real code (parser + fill_symbol + walk_stack over a module list + Symbolizer::get_symbol_at_address) are run on the same generated files in "
                 "debug and release; an independent Python linear-scan oracle judges the real output.",
